@@ -333,15 +333,17 @@ carquet_status_t carquet_page_writer_add_values(
 
     /* Collect the levels of this batch. A page holds exactly one level block
      * per kind, so the levels of all batches of the page are gathered here
-     * and encoded when the page is finalized. */
-    if (writer->max_def_level > 0 && def_levels) {
+     * and encoded when the page is finalized. A column that has definition
+     * (repetition) levels always stores them: without a levels array every
+     * row is present (starts a new record). */
+    if (writer->max_def_level > 0) {
         carquet_status_t level_status = append_levels(
             &writer->def_levels_buffer, def_levels, num_values, writer->max_def_level);
         if (level_status != CARQUET_OK) {
             return level_status;
         }
     }
-    if (writer->max_rep_level > 0 && rep_levels) {
+    if (writer->max_rep_level > 0) {
         carquet_status_t level_status = append_levels(
             &writer->rep_levels_buffer, rep_levels, num_values, 0);
         if (level_status != CARQUET_OK) {
